@@ -843,3 +843,37 @@ def rule_prover_refuses_out_of_range(ctx, cfg='prod-all'):
                      '%s L%s' % (fr.body.file(), t['line']), fact={'callee': cal, 'in': list(reversed(where))}, expected='dominates every return')
             n += 1
     yield Ob('RF-Q', '%s#sqrt-census' % root, n >= 2, 'square roots of x - a\' and b\' - x found', prog.bodies[root].span, fact=n, expected='>= 2', nontrivial=False)
+
+
+# ---------------------------------------------------------------------------------- C17: sibling commitments of one proof use independent randomness
+from flow import draw_sites, DRAW_CALLEES
+
+
+SIBLING_COMMITMENTS = [
+    # function, aggregate type suffix, pairs of fields whose commitments must not share all their randomness
+    (RP + 'proof_of_tolerance_specific', 'ProofWt', [('E_a_1', 'E_b_1'), ('E_a_2', 'E_b_2')]),
+]
+
+
+def rule_sibling_randomness(ctx, cfg='prod-all', table=SIBLING_COMMITMENTS):
+    """the commitments to the two decompositions (x - a' and b' - x) are blinded by independent splits of the randomness: each of the paired
+    fields must receive a random draw the other one does not receive.  If one split is computed from the other, products of transmitted
+    commitments lose their blinding and a guessed hidden value can be confirmed from the proof alone."""
+    prog, eng = ctx.prog(cfg), ctx.eng(cfg)
+    for fn, adt, pairs in table:
+        b = prog.bodies.get(fn)
+        if b is None:
+            raise AnchorMissing(fn)
+        fd = eng.fndep(fn)
+        aggs = [s for bi, s in b.stmts() if s['k'] == 'assign' and s['rv']['k'] == 'agg' and s['rv'].get('name', '').endswith(adt)]
+        if len(aggs) != 1:
+            raise AnchorMissing('%s: %d constructions of %s' % (fn, len(aggs), adt))
+        rv = aggs[0]['rv']
+        ops = dict(zip(rv['fields'], rv['ops']))
+        for fa, fb in pairs:
+            if fa not in ops or fb not in ops:
+                raise AnchorMissing('%s: field %s / %s of %s' % (fn, fa, fb, adt))
+            da, db = draw_sites(eng, fd, ops[fa]), draw_sites(eng, fd, ops[fb])
+            ok = bool(da - db) and bool(db - da)
+            yield Ob('RF-G2', '%s#independent:%s/%s' % (fn, fa, fb), ok, 'each of the two commitments receives a random draw of its own', b.span,
+                     fact={fa: sorted((l, c) for l, c, _ in da), fb: sorted((l, c) for l, c, _ in db)}, expected='a private draw on each side')
